@@ -279,6 +279,18 @@ func allFunctions(prog *ir.Program) map[*ir.Function]bool {
 	return seen
 }
 
+// canonTypeString prints a type with aliases resolved (u1.BoxE and u2.BoxE
+// are both lib.Box[int]: callers from different packages must be handed the
+// same wrapper).
+func canonTypeString(t types.Type) string {
+	switch u := types.Unalias(t).(type) {
+	case *types.Pointer:
+		return "*" + canonTypeString(u.Elem())
+	default:
+		return types.TypeString(u, nil)
+	}
+}
+
 // duplicates checks the absolute half of "created exactly once": generic
 // instances and instantiation wrappers are memoised per (origin, type
 // arguments), so no two functions of that kind may share a key, in any
@@ -624,7 +636,7 @@ func execute(c Case, tapes *[][]uint32) batch.Result {
 										continue
 									}
 									r.cnt["method_value_calls"]++
-									hk := types.TypeString(T, nil) + "." + ms.At(i).Obj().Id() // Id, not Name: unexported methods of different packages may share a name
+									hk := canonTypeString(T) + "." + ms.At(i).Obj().Id() // Id, not Name: unexported methods of different packages may share a name
 									if prev, ok := handed[hk]; ok && prev != fn {
 										r.fail("function-created-more-than-once", "two callers of MethodValue(%s) got two distinct functions (%p and %p): the wrapper was created twice", ms.At(i), prev, fn)
 									}
